@@ -827,6 +827,9 @@ func (w *Worker) mapUpdate(fr *frame, mv Value, key, val Value) {
 			return
 		}
 	}
+	if w.iso != nil && w.iso.maps[m] {
+		w.sharedWrite("map insert")
+	}
 	oldK, oldV := m.Keys, m.Vals
 	if w.undoOn {
 		w.undo = append(w.undo, undoEntry{f: func() { m.Keys, m.Vals = oldK, oldV }})
@@ -848,6 +851,9 @@ func (w *Worker) mapDelete(fr *frame, m *MapV, key Value) {
 	for i, k := range m.Keys {
 		eq := w.equals(m.KeyType, k, key)
 		if w.decideBool(eq, fr) {
+			if w.iso != nil && w.iso.maps[m] {
+				w.sharedWrite("map delete")
+			}
 			oldK, oldV := m.Keys, m.Vals
 			if w.undoOn {
 				w.undo = append(w.undo, undoEntry{f: func() { m.Keys, m.Vals = oldK, oldV }})
@@ -1214,6 +1220,9 @@ func (w *Worker) callBuiltin(fr *frame, fn *ssa.Builtin, args []Value) Value {
 			}
 		case *MapV:
 			if x != nil {
+				if w.iso != nil && w.iso.maps[x] {
+					w.sharedWrite("map clear")
+				}
 				oldK, oldV := x.Keys, x.Vals
 				if w.undoOn {
 					w.undo = append(w.undo, undoEntry{f: func() { x.Keys, x.Vals = oldK, oldV }})
